@@ -1,11 +1,263 @@
 /-
-C16 — placeholder while the harness is brought up (replaced by the real theorems).
+C16 — Writes are all-or-nothing at every interruption point.
+
+Property theorems only (the invariant and the induction live in Octave/Lemmas).  Every theorem is
+generic: it holds for **any** structured program `s` that passes the decidable check
+`s.disciplined c.params` (Spec/Discipline.lean), for all file systems `fs`, calls `c` (target, text to
+write, base_hash, mode, dry-run flag, pure pipeline as functions), hash functions `H`, and worlds `w`
+(crash point `crashAt`, crash inside an op `crashMid` with any `cut`, any set of injected faults
+`fault : Nat → Option Errno`).  The generated programs of the three write paths pass the check by
+`decide` (facts `gen_*` below), so the corollaries `*_writeTool`, `*_atomicWrite`, `*_cliWrite` hold
+for the code as it is now; a harmless reordering of the source keeps them, a direct write to the
+target, a replace before fsync, a missing unlink … makes the `decide` facts fail.
+
+Model: Octave/Model/FsProg.lean (`run`): each op is one atomic transition that may fail; a crash
+may happen before any op and inside `write`/`flush`/`close`/`mkdir -p`.
 -/
-import Octave.Model.FsProg
+import Octave.Lemmas.Run
 import Octave.Gen.WriteOps
 namespace Octave.C16
 open Octave
 
-theorem gen_no_unclassified : Gen.unclassified = [] := by decide
+variable (H : Data → Hash)
+
+/-- The complete new text: what the pure pipeline makes of the baseline the call read. -/
+def newText (c : Call) (out : Out) : Data := c.canon out.st.regs.base
+
+/-- **All or nothing.**  After *any* run — completed, failed, or killed at any point, under any
+faults — the target holds exactly what it held before (same node: bytes, mode; or still absent), or
+the complete new text, durable. -/
+theorem C16_all_or_nothing (s : Stmt) (c : Call) (w : World) (fs : Fs) (hc : CallOK c fs)
+    (hd : s.disciplined c.params = true) :
+    (exec H s c w fs).st.fs c.target = fs c.target ∨
+      ∃ m, (exec H s c w fs).st.fs c.target = some (.file (newText c (exec H s c w fs)) m true) := by
+  have hp := exec_post H s c w fs hc hd
+  unfold Post at hp
+  generalize exec H s c w fs = out at hp ⊢
+  rcases out with ⟨res, st⟩
+  cases res with
+  | crashed =>
+    rcases hp with hp | ⟨m, h1, _⟩
+    · exact Or.inl hp
+    · exact Or.inr ⟨m, h1⟩
+  | ok h =>
+    obtain ⟨a, hI, _, h2⟩ := hp
+    by_cases hdry : c.dry = true
+    · simp only [hdry, if_true] at h2
+      exact Or.inl (by rw [hI.clean h2.1])
+    · simp only [hdry] at h2
+      obtain ⟨m, h1, _⟩ := hI.inst (by simpa using h2)
+      exact Or.inr ⟨m, h1⟩
+  | err code =>
+    obtain ⟨a, hI, h1, _⟩ := hp
+    refine Or.inl (hI.tgt ?_)
+    intro h; simp [Abs.errOk, h] at h1
+  | raised =>
+    obtain ⟨a, hI, h1, _⟩ := hp
+    refine Or.inl (hI.tgt ?_)
+    intro h; simp [Abs.errOk, h] at h1
+
+/-- … also when the machine loses power right after: data that was not fsynced keeps only an
+arbitrary prefix (`cut`), and still the target is its previous self or the complete new text.
+(Hypothesis: the previous version of the target was itself durable.) -/
+theorem C16_all_or_nothing_power_loss (s : Stmt) (c : Call) (w : World) (fs : Fs) (hc : CallOK c fs)
+    (hd : s.disciplined c.params = true)
+    (hdur : ∀ d m sy, fs c.target = some (.file d m sy) → sy = true) (cut : Path → Nat) :
+    ((exec H s c w fs).st.fs.powerLoss cut) c.target = fs c.target ∨
+      ∃ m, ((exec H s c w fs).st.fs.powerLoss cut) c.target = some (.file (newText c (exec H s c w fs)) m true) := by
+  rcases C16_all_or_nothing H s c w fs hc hd with h | ⟨m, h⟩
+  · left
+    unfold Fs.powerLoss
+    rw [h]
+    split
+    · rename_i d m heq
+      have := hdur d m false heq
+      cases this
+    · rfl
+  · right
+    refine ⟨m, ?_⟩
+    unfold Fs.powerLoss
+    rw [h]
+
+/-- **Error ⇒ clean.**  When the call returns an error (or an exception escapes the entry point) and
+no clean-up call (`os.path.exists(temp)`, `os.unlink(temp)`) itself failed, the target is exactly as
+before, no temp file is left, and nothing else changed except directories `mkdir -p` created. -/
+theorem C16_error_clean (s : Stmt) (c : Call) (w : World) (fs : Fs) (hc : CallOK c fs)
+    (hd : s.disciplined c.params = true)
+    (herr : (∃ code, (exec H s c w fs).res = .err code) ∨ (exec H s c w fs).res = .raised)
+    (hcf : (exec H s c w fs).st.cf = false) :
+    (exec H s c w fs).st.fs c.target = fs c.target ∧
+    (exec H s c w fs).st.fs c.tmpName = none ∧
+    ∀ p, p ≠ c.target → p ≠ c.tmpName →
+      (exec H s c w fs).st.fs p = fs p ∨
+        (p.isPrefixOf (parentOf c.target) = true ∧ fs p = none ∧ (exec H s c w fs).st.fs p = some .dir) := by
+  have hp := exec_post H s c w fs hc hd
+  unfold Post at hp
+  generalize exec H s c w fs = out at hp herr hcf ⊢
+  rcases out with ⟨res, st⟩
+  have key : ∀ a, Inv H c fs a st.regs st.fs st.cf → a.errOk = true →
+      st.fs c.target = fs c.target ∧ st.fs c.tmpName = none ∧
+      ∀ p, p ≠ c.target → p ≠ c.tmpName →
+        st.fs p = fs p ∨ (p.isPrefixOf (parentOf c.target) = true ∧ fs p = none ∧ st.fs p = some .dir) := by
+    intro a hI h1
+    refine ⟨hI.tgt ?_, ?_, hI.frame⟩
+    · intro h; simp [Abs.errOk, h] at h1
+    · cases ht : a.tmp with
+      | none => exact (hI.tnone ht).2
+      | gone => exact hI.tgone (Or.inl ht)
+      | installed => simp [Abs.errOk, ht] at h1
+      | live =>
+        simp only [Abs.errOk, ht, Bool.or_eq_true, Bool.and_eq_true, decide_eq_true_eq, reduceCtorEq, false_or, true_and] at h1
+        have := hI.cfI h1
+        simp only at hcf
+        rw [hcf] at this
+        cases this
+  cases res with
+  | crashed => rcases herr with ⟨_, h⟩ | h <;> cases h
+  | ok h => rcases herr with ⟨_, h⟩ | h <;> cases h
+  | err code => obtain ⟨a, hI, h1, _⟩ := hp; exact key a hI h1
+  | raised => obtain ⟨a, hI, h1, _⟩ := hp; exact key a hI h1
+
+/-- **Success.**  When the call answers success with hash `h`: `h` is the hash of the new text; unless
+it was a dry run the target holds exactly the new text (durable), an existing file kept its
+permission bits, and no temp file is left. -/
+theorem C16_success (s : Stmt) (c : Call) (w : World) (fs : Fs) (hc : CallOK c fs)
+    (hd : s.disciplined c.params = true) (h : Hash) (hok : (exec H s c w fs).res = .ok h) :
+    h = H (newText c (exec H s c w fs)) ∧
+    (c.dry = false →
+      (∃ m, (exec H s c w fs).st.fs c.target = some (.file (newText c (exec H s c w fs)) m true) ∧
+            ∀ d m0 sy, fs c.target = some (.file d m0 sy) → m = m0) ∧
+      (exec H s c w fs).st.fs c.tmpName = none) ∧
+    (c.dry = true → (exec H s c w fs).st.fs = fs) := by
+  have hp := exec_post H s c w fs hc hd
+  unfold Post at hp
+  unfold newText
+  generalize exec H s c w fs = out at hp hok ⊢
+  rcases out with ⟨res, st⟩
+  simp only at hok
+  subst hok
+  obtain ⟨a, hI, h1, h2⟩ := hp
+  refine ⟨h1, ?_, ?_⟩
+  · intro hdry
+    simp only [hdry] at h2
+    have h3 : a.tmp = .installed := by simpa using h2
+    obtain ⟨m, e1, e2, _⟩ := hI.inst h3
+    exact ⟨⟨m, e1, e2⟩, hI.tgone (Or.inr h3)⟩
+  · intro hdry
+    simp only [hdry, if_true] at h2
+    exact hI.clean h2.1
+
+/-- **Validation first.**  When the call answers a validation error (path, arguments, missing file,
+tokenize / parse / apply / emit), no mutating call was even attempted: the file system is untouched. -/
+theorem C16_validate_first (s : Stmt) (c : Call) (w : World) (fs : Fs) (hc : CallOK c fs)
+    (hd : s.disciplined c.params = true) (code : Code) (hv : code.isValidation = true)
+    (herr : (exec H s c w fs).res = .err code) : (exec H s c w fs).st.fs = fs := by
+  have hp := exec_post H s c w fs hc hd
+  unfold Post at hp
+  generalize exec H s c w fs = out at hp herr ⊢
+  rcases out with ⟨res, st⟩
+  simp only at herr
+  subst herr
+  obtain ⟨a, hI, _, h2, _⟩ := hp
+  exact hI.clean (h2 hv)
+
+/-! ### The generated programs have the discipline (re-proved whenever the source changes) -/
+
+set_option maxRecDepth 100000 in
+theorem gen_writeTool_disciplined : AtomicDiscipline Gen.writeToolStmt := by decide
+
+set_option maxRecDepth 100000 in
+theorem gen_atomicWrite_disciplined : AtomicDisciplineW Gen.atomicWriteStmt := by decide
+
+set_option maxRecDepth 100000 in
+theorem gen_cliWrite_disciplined : AtomicDisciplineW Gen.cliWriteStmt := by decide
+
+/-- Every file-system call inside the two path validators is read-only and guarded (a failure makes
+the path invalid instead of raising): the composite op `validatePath` is a read that never raises. -/
+theorem gen_validators_read_only_guarded :
+    Gen.validatePathCalls.all (fun r => r.2.2.1 && r.2.2.2) = true := by decide
+
+/-- The translator classified every file-system call it found. -/
+theorem gen_no_unclassified : Gen.unclassified.length = 0 := by decide
+
+/-! ### Corollaries for the code as it is -/
+
+theorem C16_writeTool (c : Call) (w : World) (fs : Fs) (hc : CallOK c fs) :
+    ((exec H Gen.writeToolStmt c w fs).st.fs c.target = fs c.target ∨
+      ∃ m, (exec H Gen.writeToolStmt c w fs).st.fs c.target =
+        some (.file (newText c (exec H Gen.writeToolStmt c w fs)) m true)) :=
+  C16_all_or_nothing H _ c w fs hc (gen_writeTool_disciplined _ (allParams_complete _))
+
+theorem C16_atomicWrite (c : Call) (w : World) (fs : Fs) (hc : CallOK c fs) (hdry : c.dry = false) :
+    ((exec H Gen.atomicWriteStmt c w fs).st.fs c.target = fs c.target ∨
+      ∃ m, (exec H Gen.atomicWriteStmt c w fs).st.fs c.target =
+        some (.file (newText c (exec H Gen.atomicWriteStmt c w fs)) m true)) :=
+  C16_all_or_nothing H _ c w fs hc (gen_atomicWrite_disciplined _ (allParams_complete _) hdry)
+
+theorem C16_cliWrite (c : Call) (w : World) (fs : Fs) (hc : CallOK c fs) (hdry : c.dry = false) :
+    ((exec H Gen.cliWriteStmt c w fs).st.fs c.target = fs c.target ∨
+      ∃ m, (exec H Gen.cliWriteStmt c w fs).st.fs c.target =
+        some (.file (newText c (exec H Gen.cliWriteStmt c w fs)) m true)) :=
+  C16_all_or_nothing H _ c w fs hc (gen_cliWrite_disciplined _ (allParams_complete _) hdry)
+
+/-! ### Non-vacuity: concrete runs of the generated program of WriteTool.execute -/
+
+/-- root `[]` and `[1]` are directories, `[1,2]` is the target holding "old" with mode 0o640. -/
+def fsEx : Fs := fun p =>
+  if p = [] then some .dir else if p = [1] then some .dir
+  else if p = [1, 2] then some (.file "old".toList 416 true) else none
+
+def callEx : Call :=
+  { target := [1, 2], tmpName := [1, 9], mode := .content, baseHash := some "old".toList,
+    canon := fun _ => "new".toList }
+
+theorem callEx_ok : CallOK callEx fsEx := ⟨by decide, by decide, by decide, by decide⟩
+
+def Hid : Data → Hash := fun d => d
+
+/-- The hypotheses are satisfiable and the success clause is not vacuous: the run succeeds, installs
+"new" with the old mode 0o640. -/
+example : (exec Hid Gen.writeToolStmt callEx {} fsEx).res = .ok "new".toList ∧
+    (exec Hid Gen.writeToolStmt callEx {} fsEx).st.fs [1, 2] = some (.file "new".toList 416 true) ∧
+    (exec Hid Gen.writeToolStmt callEx {} fsEx).st.fs [1, 9] = none := by decide
+
+/-- A kill in the middle of the temp-file write (op 11, after 2 characters): target untouched, a
+partial temp file is left — all-or-nothing speaks about the target only. -/
+example : (exec Hid Gen.writeToolStmt callEx { crashAt := some 11, crashMid := true, cut := 2 } fsEx).res = .crashed ∧
+    (exec Hid Gen.writeToolStmt callEx { crashAt := some 11, crashMid := true, cut := 2 } fsEx).st.fs [1, 2]
+      = some (.file "old".toList 416 true) ∧
+    (exec Hid Gen.writeToolStmt callEx { crashAt := some 11, crashMid := true, cut := 2 } fsEx).st.fs [1, 9]
+      = some (.file "ne".toList 416 false) := by decide
+
+/-- A fault in `os.replace` (op 16): E_WRITE, target untouched, temp file removed, no clean-up failure. -/
+example : (exec Hid Gen.writeToolStmt callEx { fault := fun n => if n = 16 then some .ENOSPC else none } fsEx).res = .err .E_WRITE ∧
+    (exec Hid Gen.writeToolStmt callEx { fault := fun n => if n = 16 then some .ENOSPC else none } fsEx).st.cf = false ∧
+    (exec Hid Gen.writeToolStmt callEx { fault := fun n => if n = 16 then some .ENOSPC else none } fsEx).st.fs [1, 9] = none := by
+  decide
+
+/-- The hypothesis of `C16_error_clean` is needed: when `os.replace` fails *and* the `os.unlink` of the
+clean-up fails too (ops 16 and 18), the temp file stays — and the model says `cf = true`. -/
+example :
+    (exec Hid Gen.writeToolStmt callEx { fault := fun n => if n = 16 ∨ n = 18 then some .EIO else none } fsEx).st.cf = true ∧
+    (exec Hid Gen.writeToolStmt callEx { fault := fun n => if n = 16 ∨ n = 18 then some .EIO else none } fsEx).st.fs [1, 9] ≠ none ∧
+    (exec Hid Gen.writeToolStmt callEx { fault := fun n => if n = 16 ∨ n = 18 then some .EIO else none } fsEx).st.fs [1, 2]
+      = some (.file "old".toList 416 true) := by decide
+
+/-- Validation first: a parse error answers E_PARSE with the file system untouched. -/
+example : (exec Hid Gen.writeToolStmt { callEx with fails := fun _ => some .E_PARSE } {} fsEx).res = .err .E_PARSE := by decide
+
+/-- The discipline is not trivially true: a program that writes directly to the target, one that
+replaces before fsync, and one that forgets the unlink in its handler are all rejected. -/
+example : (Stmt.block [.op (.openW .target), .op (.write .canonical), .op .close, .ret .ok]).disciplined ⟨.content, false, false⟩ = false := by
+  decide
+example : (Stmt.block [.op (.mkstemp .parent), .op .fdopen, .op (.write .canonical), .op .flush, .op .close,
+    .op (.replace .temp .target), .ret .ok]).disciplined ⟨.content, false, false⟩ = false := by decide
+example : (Stmt.block [.op (.exists_ .target), .ite .last (.ret (.err .E_WRITE)) .skip, .op (.mkstemp .parent),
+    .try_ (.block [.op .fdopen, .op (.write .canonical), .op .flush, .op .fsync, .op .close, .op (.replace .temp .target)])
+      (.ret (.err .E_WRITE)), .ret .ok]).disciplined ⟨.content, false, false⟩ = false := by decide
+/-- … and the same program with the unlink is accepted. -/
+example : (Stmt.block [.op (.exists_ .target), .ite .last (.ret (.err .E_WRITE)) .skip, .op (.mkstemp .parent),
+    .try_ (.block [.op .fdopen, .op (.write .canonical), .op .flush, .op .fsync, .op .close, .op (.replace .temp .target)])
+      (.block [.op (.unlink .temp), .ret (.err .E_WRITE)]), .ret .ok]).disciplined ⟨.content, false, false⟩ = true := by decide
 
 end Octave.C16
